@@ -398,6 +398,7 @@ pub fn byte_op_name(op: &ByteOp) -> &'static str {
         ByteOp::Extend { .. } => "extension",
         ByteOp::Torn { .. } => "torn-write",
         ByteOp::Misdirect { .. } => "misdirected-read",
+        ByteOp::XorPair { .. } => "correlated-two-byte-corruption",
         ByteOp::AadVariant { mode: 0 } => "aad-absent-vs-empty",
         ByteOp::AadVariant { .. } => "aad-different-content",
     }
@@ -446,6 +447,14 @@ pub fn apply_byte_op(w: &mut World, slot: usize, op: &ByteOp) -> bool {
                 nb.extend_from_slice(&o.orig[cut..]);
             }
             b = nb;
+        }
+        ByteOp::XorPair { pos, dist, delta } => {
+            if b.len() <= *dist || *delta == 0 {
+                return false;
+            }
+            let p = *pos % (b.len() - *dist);
+            b[p] ^= *delta;
+            b[p + *dist] ^= *delta;
         }
         ByteOp::AadVariant { mode } => {
             if w.slots[slot].kind != SlotKind::Header {
